@@ -1,8 +1,8 @@
 package dsim
 
 import (
-	"context"
 	"bytes"
+	"context"
 	"errors"
 	"fmt"
 	"io"
@@ -27,9 +27,9 @@ const smcHost = "cli.dsim.example"
 const smcRealm = "dsim.example"
 
 type smcObs struct {
-	msg      RefMsg
-	raw      []byte
-	at, end  time.Duration // write entered / returned (fake time since start)
+	msg     RefMsg
+	raw     []byte
+	at, end time.Duration // write entered / returned (fake time since start)
 }
 
 type smcOut struct {
@@ -40,35 +40,36 @@ type smcOut struct {
 }
 
 type smcWorld struct {
-	e   *Env
-	sc  *SimConn
-	cli *sm.Client
-	mach *sm.StateMachine
-	R   int
-	I, W time.Duration
-	watchdog bool
-	cfgAddrs []string
+	e          *Env
+	sc         *SimConn
+	cli        *sm.Client
+	mach       *sm.StateMachine
+	R          int
+	I, W       time.Duration
+	watchdog   bool
+	cfgAddrs   []string
 	advertised map[appKey]bool
 
-	start time.Time
-	mu    sync.Mutex
-	dialDone bool
-	dialErr  error
-	dialAt   time.Duration
-	conn     diam.Conn
-	enters   []int // markers seen by the application handler
-	enterLocal []string // local address of the connection each of them arrived on
-	parkSeq  int           // the application handler parks on the message with this marker (0 = never)
-	gate     chan struct{} // the parked handler
-	metaOK   []bool
+	start      time.Time
+	mu         sync.Mutex
+	dialDone   bool
+	dialErr    error
+	dialAt     time.Duration
+	conn       diam.Conn
+	enters     []int         // markers seen by the application handler
+	enterLocal []string      // local address of the connection each of them arrived on
+	noCatchAll bool          // the application registered its handler by command name only
+	parkSeq    int           // the application handler parks on the message with this marker (0 = never)
+	gate       chan struct{} // the parked handler
+	metaOK     []bool
 
 	seenWrites int
-	obs      []smcObs
-	outbox   []smcOut
-	outSeq   int
-	delivered []smcOut // what was delivered, with the delivery instant in .at
-	stuck     bool      // the clock could not be advanced (a goroutine is blocked on a library lock)
-	shared    *smcWorld // a redial shares the Client (and its application handler) with this world
+	obs        []smcObs
+	outbox     []smcOut
+	outSeq     int
+	delivered  []smcOut  // what was delivered, with the delivery instant in .at
+	stuck      bool      // the clock could not be advanced (a goroutine is blocked on a library lock)
+	shared     *smcWorld // a redial shares the Client (and its application handler) with this world
 }
 
 func (w *smcWorld) now() time.Duration { return time.Since(w.start) }
@@ -98,7 +99,13 @@ func newSmcWorld(e *Env, wd bool) *smcWorld {
 		e.Probe("deprecated-host-ip-address-field")
 	}
 	w.mach = sm.New(settings)
-	w.mach.HandleFunc("ALL", func(c diam.Conn, m *diam.Message) {
+	// the application's handler: usually a catch-all, sometimes only the one command it expects
+	hname := "ALL"
+	if t.Chance(1, 3) {
+		hname = "CCA"
+		w.noCatchAll = true
+	}
+	w.mach.HandleFunc(hname, func(c diam.Conn, m *diam.Message) {
 		seq := -1
 		if len(m.AVP) > 0 {
 			if _, s, ok := parseMarker(m.AVP[0].Data.Serialize()); ok {
@@ -371,19 +378,20 @@ func (w *smcWorld) checkCER(m RefMsg) bool {
 // ---------------------------------------------------------------- C12 scenario
 
 type hsScript struct {
-	answerCER   int           // answer the k-th CER (1-based), 0 = never
-	ceaKind     string
-	delay       time.Duration // from the (end of the) answered CER's write
-	delayClass  string
-	disconnect  string // "", "eof", "rst"
-	discAt      time.Duration
-	preApp      bool // an application answer sent before the CEA
-	pipelined   bool // an application answer in the same segment right behind the CEA
-	stallCER    int  // stall the write of the k-th CER (0 = none) ...
-	stallFor    time.Duration
-	extras      []string // after the handshake: extra CEAs
-	nAppAfter   int
-	dwrStall    bool // instead of a CEA the peer sends a DWR and then stops reading: the client's DWA write blocks for good
+	answerCER  int // answer the k-th CER (1-based), 0 = never
+	ceaKind    string
+	delay      time.Duration // from the (end of the) answered CER's write
+	delayClass string
+	disconnect string // "", "eof", "rst"
+	discAt     time.Duration
+	preApp     bool // an application answer sent before the CEA
+	pipelined  bool // an application answer in the same segment right behind the CEA
+	stallCER   int  // stall the write of the k-th CER (0 = none) ...
+	stallFor   time.Duration
+	extras     []string // after the handshake: extra CEAs
+	nAppAfter  int
+	earlyCEA   bool // a CEA reaches the client before it has sent its CER (and before it has set up its handlers)
+	dwrStall   bool // instead of a CEA the peer sends a DWR and then stops reading: the client's DWA write blocks for good
 }
 
 func drawHsScript(w *smcWorld) hsScript {
@@ -429,6 +437,10 @@ func drawHsScript(w *smcWorld) hsScript {
 		s.extras = append(s.extras, []string{"dup-success", "failed", "success-no-sharing", "no-result-code"}[t.Draw(4)])
 	}
 	s.nAppAfter = t.Range(0, 3)
+	if len(w.cfgAddrs) == 0 && t.Chance(1, 6) {
+		// (the seam is the handshake's look at the local address, which happens only when no host address is configured)
+		s.earlyCEA = true
+	}
 	if w.R == 0 && !w.watchdog && t.Chance(1, 8) {
 		// (only without retransmissions: a second CER would queue behind the blocked DWA write)
 		s = hsScript{answerCER: 0, ceaKind: "success", delayClass: "never", dwrStall: true, stallFor: 1000 * w.I}
@@ -448,7 +460,24 @@ func smcHandshake(w *smcWorld, s hsScript) bool {
 	if s.disconnect != "" {
 		w.schedule(s.discAt, nil, s.disconnect)
 	}
-	w.dial()
+	if s.earlyCEA && !s.dwrStall {
+		// the connection's reader is running, the handshake has not registered its handlers yet:
+		// an unsolicited CEA arrives right now (nobody handles it); the real exchange follows
+		w.sc.ArmLocalAddrPark()
+		w.dial()
+		e.Quiesce()
+		early := RefMsg{Cmd: cmdCE, App: 0, HbH: 0x0e0e0e0e, E2E: 0x0e0e0e0f, AVPs: []RefAVP{{Code: 268, Flags: 0x40, Data: u32(2001)}}}
+		early.AVPs = append(early.AVPs, identAVPs("srv.peer.example", "peer.example", true, true)...)
+		w.sc.Deliver(early.Bytes())
+		e.Quiesce()
+		if w.sc.ReleaseLocalAddr() {
+			e.Fault("cea-before-the-handshake-started")
+			e.Probe("cea-before-handlers-registered")
+		}
+		e.Quiesce()
+	} else {
+		w.dial()
+	}
 	nCER := 0
 	appSent := 0
 	var firstCER []byte
@@ -717,7 +746,7 @@ func smcAfter(w *smcWorld, s hsScript) bool {
 		seq++
 		want++
 	}
-	if !w.watchdog && e.T.Chance(1, 3) {
+	if !w.watchdog && !w.noCatchAll && (w.shared == nil || !w.shared.noCatchAll) && e.T.Chance(1, 3) {
 		// without a watchdog the client has no use for DWAs itself: an unsolicited one is an
 		// answer like any other and goes to the application's handlers
 		dwa := RefMsg{Cmd: cmdDW, App: 0, HbH: uint32(9500 + seq), E2E: uint32(seq), AVPs: []RefAVP{
@@ -1732,9 +1761,9 @@ var c12SweepKinds = []string{"success", "success-vs", "failed", "failed-3xxx", "
 var c12SweepDelays = []string{"immediate", "half", "deadline-1ns", "deadline+1ns", "on-deadline", "after-budget"}
 
 type c12Case struct {
-	R, k   int
-	kind   string
-	delay  string
+	R, k  int
+	kind  string
+	delay string
 }
 
 var c12Cases []c12Case
